@@ -109,6 +109,7 @@ func (e *env) sencCases(r *hx.Rng, n int, next func() string) {
 				samples = append(samples, frame(genVideoSampleCenc(r, codec, 0)))
 			}
 		}
+		samples = withEmptySamples(r, codec, samples)
 		if codec != 'u' && ns >= 2 && r.Intn(25) == 0 { // one sample without any protection range
 			samples[r.Intn(ns)] = []byte{0, 0, 0, 0}
 		}
@@ -452,6 +453,17 @@ func (e *env) checkEncrypted(encRaw []byte, samples [][][]byte, codec byte, sche
 		}
 		if int(senc.SampleCount) != len(fss) {
 			return fmt.Sprintf("fragment %d: senc describes %d samples, the trun %d", k, senc.SampleCount, len(fss))
+		}
+		// saiz: one entry per sample of the trun whenever the samples carry auxiliary information at all (cenc: always
+		// a per-sample IV; cbcs: when every sample has a sub-sample map), empty samples included
+		if saiz := fr.Moof.Traf.Saiz; saiz != nil && len(fss) > 0 {
+			allSubs := len(senc.SubSamples) == len(fss)
+			for _, ss := range senc.SubSamples {
+				allSubs = allSubs && len(ss) > 0
+			}
+			if (scheme == "cenc" || allSubs) && int(saiz.SampleCount) != len(fss) {
+				return fmt.Sprintf("fragment %d: saiz describes %d samples, the trun %d", k, saiz.SampleCount, len(fss))
+			}
 		}
 		for j, fs := range fss {
 			clear := samples[k][j]
